@@ -303,6 +303,71 @@ TABLE += [
 ]
 
 
+# C09 / C05 (RISE): `int(<float expression>)` upsample sizes of Rise._apply_masks.
+# The float expression (`H * (1.0 + 1.0 / h)`) is normalised symbolically to one fraction
+# num/den over the integer leaves and re-emitted as the integer expression `num // den`
+# (== int(...) for non-negative values in exact arithmetic), which `lean` then translates.
+# --------------------------------------------------------------------------------------
+def _rat_norm(e, env):
+    """python scalar expression with integer-valued float constants -> (num, den) python source strings"""
+    u = ast.unparse(e)
+    if u in env:
+        return u, "1"
+    if isinstance(e, ast.Constant) and isinstance(e.value, (int, float)) and not isinstance(e.value, bool) \
+            and float(e.value) == int(e.value):
+        return str(int(e.value)), "1"
+
+    def mul(a, b):
+        if a == "1":
+            return b
+        if b == "1":
+            return a
+        return f"({a}) * ({b})"
+    if isinstance(e, ast.BinOp):
+        (n1, d1), (n2, d2) = _rat_norm(e.left, env), _rat_norm(e.right, env)
+        if isinstance(e.op, (ast.Add, ast.Sub)):
+            op = "+" if isinstance(e.op, ast.Add) else "-"
+            if d1 == d2:
+                return f"({n1}) {op} ({n2})", d1
+            return f"({mul(n1, d2)}) {op} ({mul(n2, d1)})", mul(d1, d2)
+        if isinstance(e.op, ast.Mult):
+            return mul(n1, n2), mul(d1, d2)
+        if isinstance(e.op, ast.Div):
+            return mul(n1, d2), mul(d1, n2)
+    raise Untranslatable("not a rational expression: " + u)
+
+
+def int_of_float_expr(k, env):
+    """k-th `int(...)` call of the function, rewritten as the integer expression num // den"""
+    def finder(fn):
+        c = nth_call("int", k)(fn)
+        if len(c.args) != 1 or c.keywords:
+            raise Untranslatable("int() with one argument expected")
+        num, den = _rat_norm(c.args[0], env)
+        text = num if den == "1" else f"(({num}) // ({den}))"
+        new = ast.parse(text, mode="eval").body
+        for n in ast.walk(new):
+            n.lineno, n.col_offset = c.lineno, c.col_offset
+        return new
+    return finder
+
+
+RISE_ENV = {"single_input.shape[0]": "H", "single_input.shape[1]": "W",
+            "binary_masks.shape[1]": "h", "binary_masks.shape[2]": "w"}
+
+TABLE += [
+    # time series: (int(T * (1.0 + 1.0 / t)), int(W));  images: (int(H * (1.0 + 1.0 / h)), int(W * (1.0 + 1.0 / w)))
+    ("riseUpTsT", "H W h w", "attributions/rise.py", "Rise", "_apply_masks",
+     int_of_float_expr(0, RISE_ENV), RISE_ENV, "(Int.fdiv (H * (h + (1 : Int))) h)"),
+    ("riseUpTsW", "H W h w", "attributions/rise.py", "Rise", "_apply_masks",
+     int_of_float_expr(1, RISE_ENV), RISE_ENV, "W"),
+    ("riseUpImgH", "H W h w", "attributions/rise.py", "Rise", "_apply_masks",
+     int_of_float_expr(2, RISE_ENV), RISE_ENV, "(Int.fdiv (H * (h + (1 : Int))) h)"),
+    ("riseUpImgW", "H W h w", "attributions/rise.py", "Rise", "_apply_masks",
+     int_of_float_expr(3, RISE_ENV), RISE_ENV, "(Int.fdiv (W * (w + (1 : Int))) w)"),
+]
+
+
 def generate():
     status = {}
     lines = [
